@@ -39,8 +39,8 @@ Unit(ref, prefix, exp, mult, id) == [ref |-> ref, prefix |-> prefix, exp |-> exp
 FV0 == [site |-> "none", cls |-> "plain", ids |-> FALSE, prefix |-> NoneS, exp |-> "1", mult |-> "1", depth |-> 2,
         nmaps |-> 1, mapIds |-> FALSE, connId |-> FALSE, pairs |-> 1, reset |-> "none", imports |-> "none", twin |-> FALSE,
         mathNs |-> "decl"]   \* "bare": math written without the xmlns:cellml declaration (not varied: used by C14's expectation)
-Dims == [site |-> Sites, cls |-> Classes, ids |-> BOOLEAN, prefix |-> {NoneS, "milli", "3", "-2"}, exp |-> {"1", "2", "-1", "0.5", "0.3333333333333333"},
-         mult |-> {"1", "1000", "0.001", "2.5", "0.30000000000000004", "123456789.12345679", "1e-05", "-6.02214076e+23"},   \* incl. reals that need 16 / 17 significant digits
+Dims == [site |-> Sites, cls |-> Classes, ids |-> BOOLEAN, prefix |-> {NoneS, "milli", "3", "-2"}, exp |-> {"1", "2", "-1", "0.5", "0.3333333333333333", "1.0000000000000002", "0.9999999999999999"},   \* incl. the neighbours of the default
+         mult |-> {"1", "1000", "0.001", "2.5", "0.30000000000000004", "123456789.12345679", "1e-05", "-6.02214076e+23", "1.0000000000000002", "0.9999999999999999", "4.94065645841247e-324", "1.7976931348623157e+308"},   \* incl. reals that need 16 / 17 significant digits
          depth |-> 1..3, nmaps |-> 0..3, mapIds |-> BOOLEAN, connId |-> BOOLEAN, pairs |-> 1..3,
          reset |-> {"none", "ordered", "unordered", "two", "selfTest"}, imports |-> {"none", "units", "comp", "both", "twoSources"},
          twin |-> BOOLEAN]   \* a top-level component that is a structural look-alike of the nested c3 (same name: not a valid model)
